@@ -44,6 +44,40 @@ theorem rollback_restores_files_partial (regs : List Reg) (k : Nat) (fs0 : Files
   rw [rollbackLoop_fwd_eq_rev regs 0 _ _ hd]
   exact this
 
+/-- **commit_statement_failure_restores_files.** The fault position "the COMMIT statement itself
+fails and leaves the SQL transaction finished": `Rollback`'s own `t.tx.Rollback()` then reports an
+error, and the directory is restored all the same, because the rollback closures run whether or not
+that call reports an error (`rollbackCode` ignores `sqlRollbackFails` for the files). Stated for
+both values of the flag, so the theorem covers an injected error before COMMIT as well. -/
+theorem commit_statement_failure_restores_files (regs : List Reg) (fs0 : Files) (h : Fresh regs 0 fs0)
+    (sqlRollbackFails : Bool) :
+    (commitStmtFault true regs fs0).files = fs0 ∧ (commitStmtFault true regs fs0).committed = false
+    ∧ (rollbackCode true sqlRollbackFails regs
+        (preLoop regs 0 regs.length (registerAll regs 0 fs0)).2.1
+        (preLoop regs 0 regs.length (registerAll regs 0 fs0)).1).1 = fs0 := by
+  have := (rollback_restores_files regs regs.length fs0 h).1
+  simp only [commitFault] at this
+  exact ⟨by simpa only [commitStmtFault, rollbackCode] using this, rfl, by simpa only [rollbackCode] using this⟩
+
+/-- The same for rollback closures run in registration order, under `DistinctIds`. -/
+theorem commit_statement_failure_restores_files_partial (regs : List Reg) (fs0 : Files)
+    (h : Fresh regs 0 fs0) (hd : DistinctIds regs) :
+    (commitStmtFault false regs fs0).files = fs0 := by
+  have := (rollback_restores_files_partial regs regs.length fs0 h hd).1
+  simp only [commitFault] at this
+  simpa only [commitStmtFault, rollbackCode] using this
+
+/-- Non-vacuity / what is at stake: an overwrite whose COMMIT statement fails has, at the moment
+`Rollback` starts, the old part 3 renamed away and the new part 7 published — skipping the rollback
+closures there would leave the committed object without its part file. -/
+example :
+    let fs0 := emptyFiles.set (.part 3) (some [4])
+    let regs := [Reg.put 7 [9], Reg.del 3]
+    (preLoop regs 0 regs.length (registerAll regs 0 fs0)).1 (.part 3) = none
+    ∧ (commitStmtFault true regs fs0).files (.part 3) = some [4]
+    ∧ (commitStmtFault true regs fs0).files (.part 7) = none := by
+  decide
+
 /-- **Negation witness for the code as it is.** A PutObject whose content already exists is
 deduplicated: the transaction publishes a fresh part `5` and deletes it again (`PutPart 5`,
 `DeletePart 5`). When `tx.Commit()` then fails, the forward rollback first removes the (already
